@@ -36,7 +36,8 @@ def gen_cases(tier, seed):
     withb = [p for n in range(1, 4) for p in map("".join, itertools.product("sbx", repeat=n)) if wf(p) and "b" in p]
     for _ in range(70 if tier == "quick" else 1500):
         k = rnd.randint(1, 2)
-        progs = [rnd.choice(withb)] + [rnd.choice(small + withb) for _ in range(k - 1)]
+        # one blocking sender per case: which of several blocked senders mpsc releases first is not modelled
+        progs = [rnd.choice(withb)] + [rnd.choice(small) for _ in range(k - 1)]
         rnd.shuffle(progs)
         bound = rnd.choice([1, 1, 2])
         nd = rnd.randint(2, 4)
